@@ -74,8 +74,8 @@ Qed.
 Lemma use_sim_deep pops thr idx : Forall deep_pop pops -> length idx = length pops -> 0 <= thr ->
   is_origin idx = false -> use_sim pops thr idx = false.
 Proof.
-  intros H L Ht Ho. unfold use_sim. apply negb_false_iff. apply Qle_bool_iff.
-  rewrite pnc_at_deep by assumption. rewrite Ho. exact Ht.
+  intros H L Ht Ho. unfold use_sim, use_sim_v. apply negb_false_iff. apply Qle_bool_iff.
+  change (prod_at (pnc_vecs pops) idx) with (pnc_at pops idx). rewrite pnc_at_deep by assumption. rewrite Ho. exact Ht.
 Qed.
 
 (** ** enough individuals covered, in the limit *)
@@ -195,7 +195,7 @@ Qed.
 Lemma proj_mat_scaled_entry pops p b j : pe_tot pops == 1 ->
   nth j (nth b (proj_mat_scaled pops p) []) 0 == nth j (nth b (proj_matrix (p_nseq p) (p_nsub p) (p_F p)) []) 0.
 Proof.
-  intros He. unfold proj_mat_scaled.
+  intros He. unfold proj_mat_scaled, proj_mat_scaled_v.
   change (@nil Q) with (map (fun e => Qred (pe_tot pops * e)) []) at 1. rewrite map_nth.
   rewrite nth_map_Qeq by (rewrite Qred_correct; ring). rewrite Qred_correct, He. ring.
 Qed.
@@ -206,7 +206,7 @@ Lemma apply_pop_deep d pops ax p (x y : tens d) : (ax < d)%nat -> pe_tot pops ==
   tget d (apply_pop d pops ax p x) idx
   == tget d (tapply d ax (proj_matrix (p_nseq p) (p_nsub p) (p_F p)) (p_nsub p + 1) y) idx.
 Proof.
-  intros Hax He (St & Hok & H2) Hxy idx Hl. unfold apply_pop.
+  intros Hax He (St & Hok & H2) Hxy idx Hl. unfold apply_pop, apply_pop_v. change (proj_mat_scaled_v (pe_tot pops) p) with (proj_mat_scaled pops p).
   destruct (heterr_mat_rows p Hok) as [LH _]. destruct (proj_mat_scaled_rows pops p Hok) as [LP _].
   destruct Hok as (_ & E1 & E2 & Hs & HF).
   destruct (proj_matrix_rows _ _ _ Hs E1 HF) as [LP0 _].
@@ -254,7 +254,9 @@ Proof.
   intros Hd Hp Ht H0 idx Hl.
   assert (Horig : forall idx', length idx' = d -> is_origin idx' = true -> tget d model idx' == 0).
   { intros idx' L O. rewrite (origin_repeat idx' O), L. exact H0. }
-  unfold lowpass, add_sims.
+  change (lowpass d pops thr sim model)
+    with (tfoldi d (fun idx' m acc => if use_sim pops thr idx' then tadd d acc (tscale d m (sim idx')) else acc) [] model
+                 (apply_all d pops (analytic0 d pops thr model))).
   (* the simulated part adds nothing *)
   assert (S1 : forall start, tget d (tfoldi d (fun idx' m acc => if use_sim pops thr idx' then tadd d acc (tscale d m (sim idx')) else acc) [] model start) idx
                              == tget d start idx).
@@ -268,7 +270,10 @@ Proof.
   rewrite S1. unfold apply_all, plain_projection.
   apply (apply_all_deep d pops (pe_tot_deep pops Hp) pops 0%nat); [cbn [Nat.add]; exact Hd | exact Hp | | exact Hl].
   (* the analytic part starts from the model itself *)
-  intros idx' L. unfold analytic0. apply tmapi_fix_tget. apply talli_of_tget. intros i2 L2. cbn [app].
+  intros idx' L.
+  change (analytic0 d pops thr model)
+    with (tmapi d (fun idx m => if use_sim pops thr idx then 0 else m * (1 - pnc_at pops idx)) [] model).
+  apply tmapi_fix_tget. apply talli_of_tget. intros i2 L2. cbn [app].
   destruct (is_origin i2) eqn:O.
   - pose proof (Horig i2 L2 O) as Z. destruct (use_sim pops thr i2); rewrite Z; ring.
   - rewrite use_sim_deep by (auto; congruence). rewrite pnc_at_deep by (auto; congruence). rewrite O. ring.
